@@ -17,6 +17,10 @@ need (ii)/(iii).
 
 Round 4: values added to a container the packet holds (sequence.extend(...)) are flows too;
 iter_unpack is a lenient decoder; templates assembled from literal pieces are read per variant.
+
+Round 6: assert statements are read as python -O reads them and an unbound local is a failure
+(defect F11 found this way); the file-backed raw returns what the file returned (no pre-sized
+buffer).
 """
 import ast
 
